@@ -22,6 +22,13 @@ from rtmon.monitors import quiescence
 USED_PIDS: set[int] = set()
 
 
+def _rss(pid: int) -> int:
+    try:
+        return int(open(f"/proc/{pid}/statm").read().split()[1]) * os.sysconf("SC_PAGE_SIZE")
+    except (OSError, ValueError, IndexError):
+        return 0
+
+
 def sweep_scratch() -> None:
     """Remove scratch directories left behind by workers that were killed (names carry the creating pid)."""
     for pid in list(USED_PIDS):
@@ -150,11 +157,11 @@ def run_cases(module: str, cases: list[dict], *, workers: int, case_timeout: flo
                     continue
                 record = run_one(worker, case)
                 if record.get("timeout") and record.get("diag", {}).get("verdict") != "quiescent" \
-                        and case.get("_retries", 0) < 2:
+                        and case.get("_retries", 0) < 1 and not case.get("no_retry"):
                     # the watchdog fired on a *busy* process: undecidable, not a verdict.  Re-run the case in a
                     # fresh worker with a doubled budget before the run may be called inconclusive.
                     case["_retries"] = case.get("_retries", 0) + 1
-                    case["timeout"] = 2 * float(case.get("timeout", case_timeout))
+                    case["timeout"] = 1.5 * float(case.get("timeout", case_timeout))
                     with lock:
                         retried[0] += 1
                     todo.put((i, case))
@@ -196,6 +203,7 @@ def run_cases(module: str, cases: list[dict], *, workers: int, case_timeout: flo
             return {"died": "worker stdin closed"}
         timeout = float(case.get("timeout", case_timeout))
         start = time.monotonic()
+        rss_start = _rss(worker.proc.pid)
         next_probe = quiescence_after
         while True:
             elapsed = time.monotonic() - start
@@ -242,8 +250,9 @@ def run_cases(module: str, cases: list[dict], *, workers: int, case_timeout: flo
                 late = worker.read_line(0.2)
                 if isinstance(late, dict):
                     return late
+                rss_end = _rss(worker.proc.pid) if worker.proc else 0
                 worker.kill()
-                return {"timeout": True, "diag": diag, "elapsed": elapsed}
+                return {"timeout": True, "diag": diag, "elapsed": elapsed, "rss_start": rss_start, "rss_end": rss_end}
 
     threads = [threading.Thread(target=loop, args=(i,), daemon=True)
                for i in range(max(1, min(workers, len(cases))))]
